@@ -8,14 +8,14 @@ ids="${@:-$(ls -d $HERE/seeded/C*-* | xargs -n1 basename)}"
 if [ -n "$(git -C /repo status --porcelain --untracked-files=no)" ]; then echo "/repo not clean" >&2; exit 2; fi
 trap 'git -C /repo checkout -- . ' EXIT
 for id in $ids; do
-  d="$HERE/seeded/$id"; prop="${id%-*}"
+  d="$HERE/seeded/$id"; prop="${CHECK_PROP:-${id%-*}}"
   git -C /repo checkout -- .
   if ! git -C /repo apply "$d/patch.diff"; then echo "$id patch-failed"; continue; fi
-  out="$d/detect.$TIER.txt"
+  out="$d/detect.$TIER.txt"; [ -n "${CHECK_PROP:-}" ] && out="$d/detect.cross-$CHECK_PROP.txt"
   ( cd $HERE && ./check $prop $TIER ) > "$out" 2>&1; rc=$?
   git -C /repo checkout -- .
   viol=$(grep -m1 "invariant=" "$out" | sed 's/^ *//')
   echo -e "$id\t$prop\trc=$rc\t$viol" | tee -a "$HERE/seeded/results.$TIER.tsv.new"
 done
-mv "$HERE/seeded/results.$TIER.tsv.new" "$HERE/seeded/results.$TIER.tsv" 2>/dev/null
+if [ -z "${CHECK_PROP:-}" ]; then mv "$HERE/seeded/results.$TIER.tsv.new" "$HERE/seeded/results.$TIER.tsv" 2>/dev/null; else cat "$HERE/seeded/results.$TIER.tsv.new" >> "$HERE/seeded/results.cross.tsv"; rm -f "$HERE/seeded/results.$TIER.tsv.new"; fi
 # restore evidence for the unchanged tree is the caller's job (re-run the checks)
